@@ -19,6 +19,9 @@ def fired(world, result, probes):
         "degenerate_patience_0": int(world.get("max_patience", 1) == 0),
         "loss_near_tie": 0,
     }
+    if world.get("prop") == "C16":
+        # history kind: the loss sequence shares a prefix with the run executed just before it in the same process
+        f["related_history_prefix_shared"] = int(bool((world.get("faults") or {}).get("related_history")))
     vals = sorted(c["loss"]["value"] for c in calls if c["kind"] != "P" and math.isfinite(c["loss"]["value"]))
     for a, b in zip(vals, vals[1:]):
         if a != b and abs(a - b) <= 1e-5 * max(abs(a), abs(b), 1e-3):
